@@ -35,7 +35,7 @@ COMPONENTS = {
     "real": ["eolib.packet.PacketSequencer", "eolib.packet.sequence_start.*", "EoWriter/EoReader for every message"],
     "stub_or_harness": ["SimNet (virtual-time FIFO network)", "client/server node scripts", "SimRandom"],
 }
-PROBES = ["user_start_derived_from_library_class", "update_at_counter_9", "update_at_counter_0", "back_to_back_updates", "update_with_packets_in_flight",
+PROBES = ["start_object_changed_in_place", "user_start_derived_from_library_class", "update_at_counter_9", "update_at_counter_0", "back_to_back_updates", "update_with_packets_in_flight",
           "three_wraparounds_between_updates", "reconnect", "sequence_sent_as_short", "two_pings_outstanding",
           "request_from_another_thread"]
 FAULT_KINDS = ["latency_jitter", "start_update_mid_burst", "reconnect", "start_unreadable_during_request", "update_during_request"]
@@ -71,6 +71,10 @@ def generate(streams, tier):
         r = rng.random() if not long_history else rng.random() * 0.5 + (0.5 if rng.random() < 0.5 else 0.0)
         if rng.random() < 0.04:
             local.append(["next_with_update_inside", rng.choice([0, 7, 240, 1756, rng.randrange(0, 70000)])])
+            continue
+        if rng.random() < 0.04:
+            # the application changes the value of the start object it installed earlier (no new hand-over)
+            local.append(["set_in_place", rng.choice([0, 3, 250, 1756, rng.randrange(0, 70000)])])
             continue
         if r < 0.5:
             local.append(["next"])
@@ -318,16 +322,23 @@ def run_local(plan, s, res, tr):
                 hook()          # something else happens while the request is in progress
             return self._v
 
-    seq = s.PacketSequencer(start=ProbeStart(0))
+    installed = ProbeStart(0)
+    seq = s.PacketSequencer(start=installed)
     n, start = 0, 0
     for i, op in enumerate(plan.get("local", [])):
         if op[0] == "set":
+            installed = ProbeStart(op[1])
             if i % 4 == 1:
-                seq.set_sequence_start(start=ProbeStart(op[1]))
+                seq.set_sequence_start(start=installed)
             else:
-                seq.set_sequence_start(ProbeStart(op[1]))
+                seq.set_sequence_start(installed)
             start = op[1]
             tr.ev("local", "set", op[1])
+        elif op[0] == "set_in_place":
+            installed._v = op[1]        # "the start value in force at that moment" is what the start object says now
+            start = op[1]
+            res.count("probe.start_object_changed_in_place")
+            tr.ev("local", "set_in_place", op[1])
         elif op[0] in ("next", "next_in_thread"):
             if op[0] == "next_in_thread":
                 import threading
@@ -352,7 +363,7 @@ def run_local(plan, s, res, tr):
         elif op[0] == "next_with_update_inside":
             # a start update arrives while a request is in progress (re-entrantly, from the start's own value read);
             # which start that request itself used is not prescribed - the NEXT request must use the new one
-            new_start = ProbeStart(op[1])
+            new_start = installed = ProbeStart(op[1])
             state["on_read"] = lambda: seq.set_sequence_start(new_start)
             got = seq.next_sequence()
             state["on_read"] = None
